@@ -69,6 +69,8 @@ def _spec_checks(ctx):
     _expect_violation(ctx, "Shutdown_asis.cfg", "SecondShutdownErrors",
                       "model variant in which the caller that loses the CAS returns nil (the defect fixed in hertz) must violate SecondShutdownErrors")
     _expect_violation(ctx, "Shutdown_neg.cfg", "CloseAnnounced", "exit check moved before the handler")
+    _expect_violation(ctx, "Shutdown_neg3.cfg", "HooksStartedAtReturn",
+                      "hooks called one after the other: a hook beyond the deadline starves the hooks registered after it")
     _expect_violation(ctx, "Shutdown_neg2.cfg", "AcceptedAwaited",
                       "connection counted as active only when its goroutine starts, not right after Accept()")
 
@@ -212,6 +214,20 @@ def _self_tests(ctx, base):
                 return recs
         return recs
     lib.self_test(ctx, TRACE[0], TRACE[1], base, second_nil, ncases=400, name="a second / not-running Shutdown that returns nil")
+
+    def late_hook(recs):
+        # a hook that starts only after Shutdown returned nil (starved by a hook registered before it)
+        for i, r in enumerate(recs):
+            if r["ev"] == "HookStart" and r["h"] >= 2:
+                for j in range(i + 1, len(recs)):
+                    if recs[j]["ev"] in ("Case", "End"):
+                        break
+                    if recs[j]["ev"] == "ShutdownReturn" and recs[j]["err"] == "nil":
+                        moved = [x for x in recs[i:j] if x["ev"] in ("HookStart", "HookEnd") and x["h"] == r["h"]]
+                        rest = [x for x in recs[i:j] if not (x["ev"] in ("HookStart", "HookEnd") and x["h"] == r["h"])]
+                        return recs[:i] + rest + [recs[j]] + moved + recs[j + 1:]
+        return recs
+    lib.self_test(ctx, TRACE[0], TRACE[1], base, late_hook, ncases=400, name="a hook that started only after Shutdown had returned")
 
     def no_hook(recs):
         out, done = [], False
